@@ -210,7 +210,7 @@ def c03 (st : St) (I' : Ideal) (op : Op) (impl : List String) (changed : Bool) :
           else if pv.isSome && pv != some v then "bad:gc-value-changed" else "ok"
         | none => "ok"
       ({ g with recent := id :: g.recent.erase id, refs := if g.refs.contains id then g.refs else id :: g.refs,
-                lastVal := ainsert g.lastVal id (v, I'.opn),
+                lastVal := ainsert g.lastVal id (v, I'.opn), collectable := g.collectable.erase id,
                 promised := if verdict == "ok" then g.promised else aerase g.promised id }, verdict)
     | _ =>
       (g, if (alookup g.promised id).isSome then "bad:gc-call-panic" else "ok")
@@ -222,7 +222,10 @@ def c03 (st : St) (I' : Ideal) (op : Op) (impl : List String) (changed : Bool) :
     | _, _ => (g, "ok")
   | .retain f a =>
     let id := nodeOf st.P f a
-    if impl == ["ok"] then ({ g with retained := retainInc g.retained id, guards := id :: g.guards }, "ok") else (g, "ok")
+    if impl == ["ok"] then
+      ({ g with retained := retainInc g.retained id, guards := id :: g.guards,
+                staleRetain := g.staleRetain || g.collectable.contains id }, "ok")
+    else (g, "ok")
   | .unretain f a =>
     let id := nodeOf st.P f a
     if impl == ["ok"] then ({ g with retained := retainDec g.retained id, guards := g.guards.erase id }, "ok") else (g, "ok")
@@ -237,9 +240,13 @@ def c03 (st : St) (I' : Ideal) (op : Op) (impl : List String) (changed : Bool) :
         | none => false)
       let keep := iclosure I'.nodes (closureFuel I'.nodes fresh) fresh []
       let promised := keep.map (fun n => (n, if fresh.contains n then (alookup g.lastVal n).map (·.1) else none))
-      ({ g with promised := promised }, "ok")
+      let alive := iclosure I'.nodes (closureFuel I'.nodes g.roots) g.roots []
+      let gone := (g.lastVal.map (·.1)).filter (fun n => !(alive.contains n) && !(g.collectable.contains n))
+      ({ g with promised := promised, collectable := gone ++ g.collectable }, "ok")
     else if impl == ["dead"] then (g, "ok")
-    else (g, if st.hadPanic then "bad:gc-panic-after-failed-call" else "bad:gc-panic")
+    else (g, if st.hadPanic then "bad:gc-panic-after-failed-call"
+             else if g.staleRetain then "bad:gc-panic-stale-retain"
+             else "bad:gc-panic-root-was-evicted")
   | _ => (g, "ok")
 
 /-! ### one line -/
